@@ -323,6 +323,7 @@ class Prop:
     trusted = []
     assumptions = []
     design_ref = ""
+    claim = True          # False while the theorems are still being built (not listed in MANIFEST)
 
     def cases(self, tier, rng):
         return []
